@@ -36,6 +36,10 @@ fn check_one(ctx: &Ctx, acc: &mut Acc, l: L, lang: &text2num::Language, n: u64, 
     if !is_std && text == std_text {
         return;
     }
+    check_text(ctx, acc, l, lang, n, text, frames)
+}
+
+fn check_text(ctx: &Ctx, acc: &mut Acc, l: L, lang: &text2num::Language, n: u64, text: String, frames: &[usize]) {
     let want = n.to_string();
     acc.states += 1;
     let words = text.split(' ').count() as u64;
@@ -132,6 +136,8 @@ pub fn run(tier: Tier) -> i32 {
             shards.push(Shard { l, lo, hi, kind: 1, vars: axes.clone(), frames: vec![1] });
             lo = hi;
         }
+        // mixed variants: the thousands group in one orthographic variant, the units group in another
+        shards.push(Shard { l, lo: 0, hi: 0, kind: 3, vars: axes.clone(), frames: vec![1] });
         // per-position sweep: every value 0..999 of one group, the other groups from a small set
         for pos in 0..4u64 {
             for part in 0..4u64 {
@@ -176,6 +182,35 @@ pub fn run(tier: Tier) -> i32 {
                     run_n(from_groups(g), acc);
                 }
             }
+            3 => {
+                // head = a thousand-multiple spelled in variant v1, tail = the units group spelled in variant v2; only where
+                // plain concatenation is what the reference speller itself does in both variants
+                let l = sh.l;
+                for v1 in &sh.vars {
+                    for v2 in &sh.vars {
+                        if v1 == v2 {
+                            continue;
+                        }
+                        for &a in G_T.iter() {
+                            for &b in G_T.iter() {
+                                if a == 0 || b == 0 {
+                                    continue;
+                                }
+                                let n = a as u64 * 1000 + b as u64;
+                                let cat = |v: Var| format!("{} {}", spell::spell(l, a as u64 * 1000, v), spell::spell(l, b as u64, v));
+                                if cat(*v1) != spell::spell(l, n, *v1) || cat(*v2) != spell::spell(l, n, *v2) {
+                                    continue;
+                                }
+                                let text = format!("{} {}", spell::spell(l, a as u64 * 1000, *v1), spell::spell(l, b as u64, *v2));
+                                if text == spell::spell(l, n, *v1) || text == spell::spell(l, n, *v2) {
+                                    continue;
+                                }
+                                check_text(&ctx, acc, l, &lang, n, text, &sh.frames);
+                            }
+                        }
+                    }
+                }
+            }
             _ => {
                 let pos = sh.lo as usize;
                 let small: &[u32] = if tier == Tier::Thorough { &S_SMALL } else { &S_QUICK };
@@ -206,6 +241,7 @@ pub fn run(tier: Tier) -> i32 {
     acc.nontrivial = acc.states;
     let cov = json!({
         "exhaustive": true,
+        "mixed_variants": "thousands group (40 class values) in one orthographic variant x units group (40) in another, every ordered pair of variant axes, where plain concatenation is what the reference speller does in both",
         "rule": "every (language, n, spelling variant) with a rendering distinct from the standard one is a case; each case = validator call + scanner calls inside sentence frames; non-trivial = all (every case spells a number with the reference speller and round-trips it through the real code)",
         "bounds": {
             "dense_all_variant_combinations_below": dense_all,
